@@ -373,8 +373,10 @@ impl<'a> MachineAfterRegWrite<'a> {
                 if machine.state == State::Running {
                     machine.state = State::Stopped;
                 }
-            } else if machine.last_bus_read == 0b0010_1100 {
-                // We need to clear some MISR flags once the program returns from interrupt
+            } else if machine.last_bus_read == 0b0010_1100 && machine.signals().mac3() {
+                // We need to clear some MISR flags once the program returns from interrupt.
+                // Only a first opcode byte is a RETI; as the second byte of a two-byte
+                // instruction 0x2C means `CMP ((R0+)), src`.
                 trace!("RETI detected. Removing MISR flags");
                 // TODO: I don't actually know when this needs setting. See #34
                 machine
